@@ -5,6 +5,8 @@ that the skip in `historyStep` is sound.
 -/
 import SqliteDissect.Model.History
 import SqliteDissect.Proofs.History
+import SqliteDissect.Proofs.TreeBody
+import SqliteDissect.Proofs.TreeWalk
 
 namespace SqliteDissect.Proofs.TreeFrame
 open SqliteDissect SqliteDissect.Model
@@ -21,77 +23,6 @@ theorem Agree.symm {v v' : VersionIf} {p : Nat} (h : Agree v v' p) : Agree v' v 
 theorem Agree.trans {v v' v'' : VersionIf} {p : Nat} (h : Agree v v' p) (h' : Agree v' v'' p) :
     Agree v v'' p :=
   ⟨h.1.trans h'.1, h.2.1.trans h'.2.1, h.2.2.trans h'.2.2⟩
-
-/-! ### generic helpers -/
-
-theorem bind_ok {α β : Type} {x : Py α} {f : α → Py β} {b : β}
-    (h : (x >>= f) = .ok b) : ∃ a, x = .ok a ∧ f a = .ok b := by
-  cases x with
-  | error e => exact nomatch h
-  | ok a => exact ⟨a, rfl, h⟩
-
-theorem ok_bind {α β : Type} (a : α) (f : α → Py β) : ((.ok a : Py α) >>= f) = f a := rfl
-
-/-- a property of the final state that every successful step reflects backwards holds of every
-intermediate state -/
-theorem foldlM_back {σ ι : Type} (f : σ → ι → Py σ) (P : σ → Prop)
-    (hmono : ∀ s x s', f s x = .ok s' → P s' → P s) :
-    ∀ (l : List ι) (init r : σ), l.foldlM f init = .ok r → P r → P init := by
-  intro l
-  induction l with
-  | nil =>
-    intro init r h hr
-    simp only [List.foldlM_nil, pure, Except.pure, Except.ok.injEq] at h
-    subst h; exact hr
-  | cons x xs ih =>
-    intro init r h hr
-    rw [List.foldlM_cons] at h
-    obtain ⟨s, hs, h⟩ := bind_ok h
-    exact hmono _ _ _ hs (ih _ _ h hr)
-
-/-- transfer of a successful fold to another step function that agrees with the first one on
-every step whose result satisfies `P`, where `P` is a backwards-closed property of the final
-state -/
-theorem foldlM_transfer {σ ι : Type} (f g : σ → ι → Py σ) (P : σ → Prop)
-    (hmono : ∀ s x s', f s x = .ok s' → P s' → P s)
-    (hstep : ∀ s x s', f s x = .ok s' → P s' → g s x = .ok s') :
-    ∀ (l : List ι) (init r : σ), l.foldlM f init = .ok r → P r → l.foldlM g init = .ok r := by
-  intro l
-  induction l with
-  | nil => intro init r h _; simpa using h
-  | cons x xs ih =>
-    intro init r h hr
-    rw [List.foldlM_cons] at h ⊢
-    obtain ⟨s, hs, h⟩ := bind_ok h
-    have hPs : P s := foldlM_back f P hmono xs s r h hr
-    rw [hstep _ _ _ hs hPs]
-    exact ih _ _ h hr
-
-theorem foldlM_inv {σ ι : Type} (f : σ → ι → Py σ) (I : σ → Prop)
-    (hstep : ∀ s x s', f s x = .ok s' → I s → I s') :
-    ∀ (l : List ι) (init r : σ), l.foldlM f init = .ok r → I init → I r := by
-  intro l
-  induction l with
-  | nil =>
-    intro init r h hi
-    simp only [List.foldlM_nil, pure, Except.pure, Except.ok.injEq] at h
-    subst h; exact hi
-  | cons x xs ih =>
-    intro init r h hi
-    rw [List.foldlM_cons] at h
-    obtain ⟨s, hs, h⟩ := bind_ok h
-    exact ih _ _ h (hstep _ _ _ hs hi)
-
-theorem foldlM_congr_mem {σ ι : Type} (f g : σ → ι → Py σ) (l : List ι)
-    (h : ∀ i ∈ l, ∀ s, f s i = g s i) : ∀ s, l.foldlM f s = l.foldlM g s := by
-  induction l with
-  | nil => intro s; rfl
-  | cons a l ih =>
-    intro s
-    rw [List.foldlM_cons, List.foldlM_cons, h a (by simp) s]
-    cases g s a with
-    | error e => rfl
-    | ok s' => exact ih (fun i hi => h i (by simp [hi])) s'
 
 /-! ### pages visited by a parse -/
 
@@ -249,32 +180,6 @@ theorem parsePayloadCell_frame (kind : CellKind) (page : Buf) (index start : Nat
         rw [if_neg hc2, hfold _ ha, hob, ok_bind, hrec, ok_bind]
         exact h))
 
-theorem parsePayloadCell_leftChild (kind : CellKind) (page : Buf) (index start : Nat)
-    (lc : Option Nat) (rowid : Option Int) (p : Int) (prefixLen : Nat) (c : Cell)
-    (h : parsePayloadCell v kind page index start lc rowid p prefixLen = .ok c) :
-    c.leftChild = lc := by
-  unfold parsePayloadCell at h
-  simp only at h
-  obtain ⟨ovNum, _, h⟩ := bind_ok h
-  generalize calcExpectedOverflow _ _ = ce at h
-  cases ce with
-  | none => exact nomatch h
-  | some val =>
-    obtain ⟨expPages, expLast⟩ := val
-    simp only at h
-    obtain ⟨chain, hch, h⟩ := bind_ok h
-    by_cases hc1 : expPages ≠ (dictOfChain chain).length
-    · rw [if_pos hc1] at h; exact nomatch h
-    rw [if_neg hc1] at h
-    revert h
-    cases hgl : chain.getLast? <;> intro h <;> simp only at h <;> (
-      split at h
-      · exact nomatch h
-      obtain ⟨ovBuf, hob, h⟩ := bind_ok h
-      obtain ⟨rec_, hrec, h⟩ := bind_ok h
-      simp only [pure, Except.pure, Except.ok.injEq] at h
-      rw [← h])
-
 include hps in
 theorem parseCellLocal_frame (kind : CellKind) (page : Buf) (index start : Nat) (c : Cell)
     (h : parseCellLocal v kind page index start = .ok c)
@@ -314,337 +219,13 @@ theorem parseCellLocal_frame (kind : CellKind) (page : Buf) (index start : Nat) 
     rw [if_neg hlc]
     rfl
 
-/-- leaf cells have no child pointer; interior cells always have one; table-interior cells carry
-no overflow pages -/
-theorem parseCellLocal_shape (kind : CellKind) (page : Buf) (index start : Nat) (c : Cell)
-    (h : parseCellLocal v kind page index start = .ok c) :
-    (kind = .tableLeaf ∨ kind = .indexLeaf → c.leftChild = none) ∧
-    (kind = .tableInterior ∨ kind = .indexInterior → ∃ lc, c.leftChild = some lc) ∧
-    (kind = .tableInterior → c.overflowPages = []) := by
-  cases kind with
-  | tableInterior =>
-    unfold parseCellLocal at h
-    simp only at h
-    obtain ⟨lc, h0, h⟩ := bind_ok h
-    obtain ⟨⟨rowid, n⟩, h1, h⟩ := bind_ok h
-    simp only at h
-    split at h
-    · exact nomatch h
-    simp only [pure, Except.pure, Except.ok.injEq] at h
-    subst h
-    exact ⟨by simp, fun _ => ⟨lc, rfl⟩, fun _ => rfl⟩
-  | tableLeaf =>
-    unfold parseCellLocal at h
-    simp only at h
-    obtain ⟨⟨p, n1⟩, h1, h⟩ := bind_ok h
-    obtain ⟨⟨rowid, n2⟩, h2, h⟩ := bind_ok h
-    simp only at h
-    exact ⟨fun _ => parsePayloadCell_leftChild v _ _ _ _ _ _ _ _ _ h, by simp, by simp⟩
-  | indexLeaf =>
-    unfold parseCellLocal at h
-    simp only at h
-    obtain ⟨⟨p, n1⟩, h1, h⟩ := bind_ok h
-    exact ⟨fun _ => parsePayloadCell_leftChild v _ _ _ _ _ _ _ _ _ h, by simp, by simp⟩
-  | indexInterior =>
-    unfold parseCellLocal at h
-    simp only at h
-    obtain ⟨lc, h0, h⟩ := bind_ok h
-    obtain ⟨⟨p, n1⟩, h1, h⟩ := bind_ok h
-    obtain ⟨c0, h2, h⟩ := bind_ok h
-    split at h
-    · exact nomatch h
-    simp only [pure, Except.pure, Except.ok.injEq] at h
-    subst h
-    exact ⟨by simp, fun _ => ⟨lc, parsePayloadCell_leftChild v _ _ _ _ _ _ _ _ _ h2⟩, by simp⟩
-
 end frame
-
-/-! ### the body of `parseBTree` with its cell step named -/
-
-abbrev CellSt := List Cell × List (List BPage) × Int
-
-/-- the construction of a cell's left child subtree -/
-def cellSub (v : VersionIf) (fuel : Nat) (isTable : Bool) : Option Nat → Py (List BPage)
-  | some lc => do
-    let fb ← v.getData lc 0 (some Generated.PAGE_TYPE_LENGTH)
-    match childClass isTable fb with
-    | some ccls =>
-      if fuel < cellDescentFrames then (.error .recursionError : Py (List BPage))
-      else parseBTree v (fuel - cellDescentFrames) lc ccls
-    | none => .error .parseError
-  | none => pure []
-
-/-- one iteration of the cell loop of `parseBTree v (fuel+1) _ cls` -/
-def cellStep (v : VersionIf) (fuel : Nat) (cls : PageType) (page : Buf) (ptrOff : Nat)
-    (st : CellSt) (idx : Nat) : Py CellSt := do
-  let cellOff ← unpackAt page (ptrOff + idx * Generated.CELL_POINTER_BYTE_LENGTH) Generated.CELL_POINTER_BYTE_LENGTH
-  let c ← parseCellLocal v (cellKindOf cls) page idx cellOff
-  let sub ← cellSub v fuel cls.isTable c.leftChild
-  let sz : Int := if cellKindOf cls ≠ .tableInterior ∧ c.hasOverflow then c.end_ - c.start
-                  else max c.byteSize (Generated.MINIMUM_CELL_ALLOCATION_SIZE : Int)
-  pure (st.1 ++ [c], st.2.1 ++ [sub], st.2.2 + sz)
-
-/-- the right-most descent and the assembly of the result -/
-def finish (v : VersionIf) (fuel : Nat) (cls : PageType) (hdr : PageHdr) (me : BPage)
-    (subs : List (List BPage)) : Py (List BPage) :=
-  if cls.isInterior then
-    match hdr.rightMost with
-    | none => .error .attributeError
-    | some rm =>
-      if rm = 0 then .error .parseError
-      else do
-        let fb ← v.getData rm 0 (some Generated.PAGE_TYPE_LENGTH)
-        match childClass cls.isTable fb with
-        | some ccls =>
-          if fuel < rightMostDescentFrames then .error .recursionError
-          else do
-            let rsub ← parseBTree v (fuel - rightMostDescentFrames) rm ccls
-            pure (me :: rsub ++ subs.flatten)
-        | none => .error .parseError
-  else pure [me]
-
-def ptrOffOf (hdr : PageHdr) : Nat :=
-  hdr.headerLength + (if hdr.containsDbHeader then Generated.SQLITE_DATABASE_HEADER_LENGTH else 0)
-
-def fbsOf (page : Buf) (hdr : PageHdr) : Py (List Freeblock) :=
-  if hdr.firstFreeblock ≠ 0 then freeblockWalk page 65537 0 hdr.firstFreeblock [] else pure []
-
-def layOf (strict : Bool) (ps : Nat) (hdr : PageHdr) (st : CellSt) (fbs : List Freeblock) : Py LayoutResult :=
-  layoutCheck strict ps (ptrOffOf hdr + hdr.nCells * Generated.CELL_POINTER_BYTE_LENGTH) hdr.cellContentOffset
-    hdr.fragBytes
-    ((st.1.map fun c => ((c.start : Int), max c.end_ ((c.start : Int) + Generated.MINIMUM_CELL_ALLOCATION_SIZE))) ++ (fbs.map fun f => ((f.start : Int), (f.end_ : Int))))
-    st.2.2 ((fbs.map fun f => (f.byteSize : Int)).foldl (· + ·) 0)
-
-def mkPage (number : Nat) (ptype : PageType) (hdr : PageHdr) (pv off : Nat) (page : Buf) (st : CellSt)
-    (fbs : List Freeblock) (lay : LayoutResult) : BPage :=
-  { number, ptype, hdr, pageVersion := pv, offset := off,
-    unallocStart := ptrOffOf hdr + hdr.nCells * Generated.CELL_POINTER_BYTE_LENGTH,
-    unallocEnd := hdr.cellContentOffset,
-    cells := st.1, freeblocks := fbs, fragments := lay.fragments,
-    rootOnly := if hdr.containsDbHeader then (page.slice Generated.SQLITE_DATABASE_HEADER_LENGTH page.size).toList else [] }
-
-theorem parseBTree_succ (v : VersionIf) (fuel number : Nat) (cls : PageType) :
-    parseBTree v (fuel + 1) number cls = (do
-      let pv ← v.pageVersion number
-      let off ← v.pageOffset number
-      let page ← v.getData number 0 none
-      let ptype ← btreePageType page
-      let hdr ← parsePageHdr page cls.isInterior
-      if hdr.containsDbHeader ∧ number ≠ Generated.SQLITE_MASTER_SCHEMA_ROOT_PAGE then .error .parseError
-      else do
-        let st ← (List.range hdr.nCells).foldlM (cellStep v fuel cls page (ptrOffOf hdr)) ([], [], 0)
-        let fbs ← fbsOf page hdr
-        let lay ← layOf v.strict v.pageSize hdr st fbs
-        finish v fuel cls hdr (mkPage number ptype hdr pv off page st fbs lay) st.2.1) := by
-  rw [parseBTree]
-  rfl
-
-theorem parseBTree_zero (v : VersionIf) (number : Nat) (cls : PageType) :
-    parseBTree v 0 number cls = .error .recursionError := by
-  rw [parseBTree]
-
-/-- everything a successful `parseBTree v (fuel+1)` computed -/
-structure Parts (v : VersionIf) (fuel number : Nat) (cls : PageType) (t : List BPage) where
-  pv : Nat
-  off : Nat
-  page : Buf
-  ptype : PageType
-  hdr : PageHdr
-  st : CellSt
-  fbs : List Freeblock
-  lay : LayoutResult
-  hpv : v.pageVersion number = .ok pv
-  hoff : v.pageOffset number = .ok off
-  hpage : v.getData number 0 none = .ok page
-  hptype : btreePageType page = .ok ptype
-  hhdr : parsePageHdr page cls.isInterior = .ok hdr
-  hroot : ¬ (hdr.containsDbHeader ∧ number ≠ Generated.SQLITE_MASTER_SCHEMA_ROOT_PAGE)
-  hfold : (List.range hdr.nCells).foldlM (cellStep v fuel cls page (ptrOffOf hdr)) ([], [], 0) = .ok st
-  hfbs : fbsOf page hdr = .ok fbs
-  hlay : layOf v.strict v.pageSize hdr st fbs = .ok lay
-  hfin : finish v fuel cls hdr (mkPage number ptype hdr pv off page st fbs lay) st.2.1 = .ok t
-
-theorem parseBTree_parts (v : VersionIf) (fuel number : Nat) (cls : PageType) (t : List BPage)
-    (h : parseBTree v (fuel + 1) number cls = .ok t) : Nonempty (Parts v fuel number cls t) := by
-  rw [parseBTree_succ] at h
-  obtain ⟨pv, hpv, h⟩ := bind_ok h
-  obtain ⟨off, hoff, h⟩ := bind_ok h
-  obtain ⟨page, hpage, h⟩ := bind_ok h
-  obtain ⟨ptype, hptype, h⟩ := bind_ok h
-  obtain ⟨hdr, hhdr, h⟩ := bind_ok h
-  split at h
-  · exact nomatch h
-  rename_i hroot
-  obtain ⟨st, hfold, h⟩ := bind_ok h
-  obtain ⟨fbs, hfbs, h⟩ := bind_ok h
-  obtain ⟨lay, hlay, h⟩ := bind_ok h
-  exact ⟨⟨pv, off, page, ptype, hdr, st, fbs, lay, hpv, hoff, hpage, hptype, hhdr, hroot, hfold, hfbs, hlay, h⟩⟩
-
-theorem parseBTree_of_parts (v : VersionIf) (fuel number : Nat) (cls : PageType)
-    (pv off : Nat) (page : Buf) (ptype : PageType) (hdr : PageHdr) (st : CellSt)
-    (fbs : List Freeblock) (lay : LayoutResult)
-    (hpv : v.pageVersion number = .ok pv)
-    (hoff : v.pageOffset number = .ok off)
-    (hpage : v.getData number 0 none = .ok page)
-    (hptype : btreePageType page = .ok ptype)
-    (hhdr : parsePageHdr page cls.isInterior = .ok hdr)
-    (hroot : ¬ (hdr.containsDbHeader ∧ number ≠ Generated.SQLITE_MASTER_SCHEMA_ROOT_PAGE))
-    (hfold : (List.range hdr.nCells).foldlM (cellStep v fuel cls page (ptrOffOf hdr)) ([], [], 0) = .ok st)
-    (hfbs : fbsOf page hdr = .ok fbs)
-    (hlay : layOf v.strict v.pageSize hdr st fbs = .ok lay) :
-    parseBTree v (fuel + 1) number cls
-      = finish v fuel cls hdr (mkPage number ptype hdr pv off page st fbs lay) st.2.1 := by
-  rw [parseBTree_succ, hpv, ok_bind, hoff, ok_bind, hpage, ok_bind, hptype, ok_bind, hhdr, ok_bind,
-    if_neg hroot, hfold, ok_bind, hfbs, ok_bind, hlay, ok_bind]
-
-theorem finish_ok (v : VersionIf) (fuel : Nat) (cls : PageType) (hdr : PageHdr) (me : BPage)
-    (subs : List (List BPage)) (t : List BPage) (h : finish v fuel cls hdr me subs = .ok t) :
-    (cls.isInterior = false ∧ t = [me]) ∨
-    (cls.isInterior = true ∧ ∃ rm fb ccls rsub, hdr.rightMost = some rm ∧ rm ≠ 0 ∧
-      v.getData rm 0 (some Generated.PAGE_TYPE_LENGTH) = .ok fb ∧ childClass cls.isTable fb = some ccls ∧
-      ¬ fuel < rightMostDescentFrames ∧ parseBTree v (fuel - rightMostDescentFrames) rm ccls = .ok rsub ∧
-      t = me :: (rsub ++ subs.flatten)) := by
-  unfold finish at h
-  split at h
-  · rename_i hint
-    right
-    refine ⟨hint, ?_⟩
-    split at h
-    · exact nomatch h
-    rename_i rm hrm
-    split at h
-    · exact nomatch h
-    rename_i hrm0
-    obtain ⟨fb, hfb, h⟩ := bind_ok h
-    split at h
-    · rename_i ccls hccls
-      split at h
-      · exact nomatch h
-      rename_i hfuel
-      obtain ⟨rsub, hrsub, h⟩ := bind_ok h
-      simp only [pure, Except.pure, Except.ok.injEq] at h
-      exact ⟨rm, fb, ccls, rsub, hrm, hrm0, hfb, hccls, hfuel, hrsub, h.symm⟩
-    · exact nomatch h
-  · rename_i hint
-    left
-    simp only [pure, Except.pure, Except.ok.injEq] at h
-    exact ⟨by simpa using hint, h.symm⟩
-
-theorem cellSub_ok (v : VersionIf) (fuel : Nat) (isT : Bool) (lcOpt : Option Nat) (sub : List BPage)
-    (h : cellSub v fuel isT lcOpt = .ok sub) :
-    (lcOpt = none ∧ sub = []) ∨
-    (∃ lc fb ccls, lcOpt = some lc ∧ v.getData lc 0 (some Generated.PAGE_TYPE_LENGTH) = .ok fb ∧
-      childClass isT fb = some ccls ∧ ¬ fuel < cellDescentFrames ∧
-      parseBTree v (fuel - cellDescentFrames) lc ccls = .ok sub) := by
-  cases lcOpt with
-  | none =>
-    left
-    simp only [cellSub, pure, Except.pure, Except.ok.injEq] at h
-    exact ⟨rfl, h.symm⟩
-  | some lc =>
-    right
-    simp only [cellSub] at h
-    obtain ⟨fb, hfb, h⟩ := bind_ok h
-    split at h
-    · rename_i ccls hccls
-      split at h
-      · exact nomatch h
-      rename_i hfuel
-      exact ⟨lc, fb, ccls, rfl, hfb, hccls, hfuel, h⟩
-    · exact nomatch h
-
-def cellSz (cls : PageType) (c : Cell) : Int :=
-  if cellKindOf cls ≠ .tableInterior ∧ c.hasOverflow then c.end_ - c.start
-  else max c.byteSize (Generated.MINIMUM_CELL_ALLOCATION_SIZE : Int)
-
-theorem cellStep_ok (v : VersionIf) (fuel : Nat) (cls : PageType) (page : Buf) (ptrOff : Nat)
-    (st st' : CellSt) (idx : Nat) (h : cellStep v fuel cls page ptrOff st idx = .ok st') :
-    ∃ cellOff c sub,
-      unpackAt page (ptrOff + idx * Generated.CELL_POINTER_BYTE_LENGTH) Generated.CELL_POINTER_BYTE_LENGTH = .ok cellOff ∧
-      parseCellLocal v (cellKindOf cls) page idx cellOff = .ok c ∧
-      cellSub v fuel cls.isTable c.leftChild = .ok sub ∧
-      st' = (st.1 ++ [c], st.2.1 ++ [sub], st.2.2 + cellSz cls c) := by
-  unfold cellStep at h
-  obtain ⟨cellOff, h1, h⟩ := bind_ok h
-  obtain ⟨c, h2, h⟩ := bind_ok h
-  obtain ⟨sub, h3, h⟩ := bind_ok h
-  simp only [pure, Except.pure, Except.ok.injEq] at h
-  exact ⟨cellOff, c, sub, h1, h2, h3, h.symm⟩
-
-theorem cellStep_of (v : VersionIf) (fuel : Nat) (cls : PageType) (page : Buf) (ptrOff : Nat)
-    (st : CellSt) (idx : Nat) (cellOff : Nat) (c : Cell) (sub : List BPage)
-    (h1 : unpackAt page (ptrOff + idx * Generated.CELL_POINTER_BYTE_LENGTH) Generated.CELL_POINTER_BYTE_LENGTH = .ok cellOff)
-    (h2 : parseCellLocal v (cellKindOf cls) page idx cellOff = .ok c)
-    (h3 : cellSub v fuel cls.isTable c.leftChild = .ok sub) :
-    cellStep v fuel cls page ptrOff st idx = .ok (st.1 ++ [c], st.2.1 ++ [sub], st.2.2 + cellSz cls c) := by
-  unfold cellStep
-  rw [h1, ok_bind, h2, ok_bind, h3, ok_bind]
-  rfl
-
-/-- the root page is the head of the result -/
-theorem parseBTree_head (v : VersionIf) (fuel n : Nat) (cls : PageType) (t : List BPage)
-    (h : parseBTree v fuel n cls = .ok t) : ∃ me rest, t = me :: rest ∧ me.number = n := by
-  cases fuel with
-  | zero => rw [parseBTree_zero] at h; exact nomatch h
-  | succ fuel =>
-    obtain ⟨P⟩ := parseBTree_parts v fuel n cls t h
-    rcases finish_ok _ _ _ _ _ _ _ P.hfin with ⟨_, ht⟩ | ⟨_, rm, fb, ccls, rsub, _, _, _, _, _, _, ht⟩
-    · exact ⟨_, [], ht, rfl⟩
-    · exact ⟨_, _, ht, rfl⟩
 
 theorem root_mem_visited (v : VersionIf) (fuel n : Nat) (cls : PageType) (t : List BPage)
     (h : parseBTree v fuel n cls = .ok t) : n ∈ visitedPages t := by
   obtain ⟨me, rest, rfl, hn⟩ := parseBTree_head v fuel n cls t h
   rw [visitedPages_cons, ← hn]
   simp
-
-theorem finish_leaf (v : VersionIf) (fuel : Nat) (cls : PageType) (hdr : PageHdr) (me : BPage)
-    (subs : List (List BPage)) (hl : cls.isInterior = false) :
-    finish v fuel cls hdr me subs = .ok [me] := by
-  unfold finish
-  rw [if_neg (by simp [hl])]
-  rfl
-
-theorem finish_interior (v : VersionIf) (fuel : Nat) (cls : PageType) (hdr : PageHdr) (me : BPage)
-    (subs : List (List BPage)) (rm : Nat) (fb : Buf) (ccls : PageType) (rsub : List BPage)
-    (hi : cls.isInterior = true) (hrm : hdr.rightMost = some rm) (hrm0 : rm ≠ 0)
-    (hfb : v.getData rm 0 (some Generated.PAGE_TYPE_LENGTH) = .ok fb)
-    (hccls : childClass cls.isTable fb = some ccls) (hfuel : ¬ fuel < rightMostDescentFrames)
-    (hrsub : parseBTree v (fuel - rightMostDescentFrames) rm ccls = .ok rsub) :
-    finish v fuel cls hdr me subs = .ok (me :: (rsub ++ subs.flatten)) := by
-  unfold finish
-  rw [if_pos hi, hrm]
-  simp only
-  rw [if_neg hrm0, hfb, ok_bind, hccls]
-  simp only
-  rw [if_neg hfuel, hrsub, ok_bind]
-  rfl
-
-theorem cellKind_leaf (cls : PageType) (h : cls.isInterior = false) :
-    cellKindOf cls = .tableLeaf ∨ cellKindOf cls = .indexLeaf := by
-  cases cls <;> simp [PageType.isInterior, cellKindOf] at h ⊢
-
-theorem cellKind_interior (cls : PageType) (h : cls.isInterior = true) :
-    cellKindOf cls = .tableInterior ∨ cellKindOf cls = .indexInterior := by
-  cases cls <;> simp [PageType.isInterior, cellKindOf] at h ⊢
-
-/-- the cell loop of a leaf page constructs no subtrees -/
-theorem fold_leaf_subs (v : VersionIf) (fuel : Nat) (cls : PageType) (page : Buf) (ptrOff : Nat)
-    (hl : cls.isInterior = false) (l : List Nat) (init st : CellSt)
-    (h : l.foldlM (cellStep v fuel cls page ptrOff) init = .ok st)
-    (hi : ∀ s ∈ init.2.1, s = []) : ∀ s ∈ st.2.1, s = [] := by
-  refine foldlM_inv (cellStep v fuel cls page ptrOff) (fun st => ∀ s ∈ st.2.1, s = []) ?_ l init st h hi
-  intro s x s' hs hI
-  obtain ⟨cellOff, c, sub, _, h2, h3, rfl⟩ := cellStep_ok _ _ _ _ _ _ _ _ hs
-  have hlc := (parseCellLocal_shape v _ _ _ _ _ h2).1 (cellKind_leaf cls hl)
-  rw [hlc] at h3
-  rcases cellSub_ok _ _ _ _ _ h3 with ⟨_, hsub⟩ | ⟨lc, _, _, hlc', _⟩
-  · intro s0 hs0
-    simp only [List.mem_append, List.mem_singleton] at hs0
-    rcases hs0 with hs0 | hs0
-    · exact hI s0 hs0
-    · rw [hs0, hsub]
-  · exact nomatch hlc'
 
 /-- agreement on everything the cell loop has visited so far -/
 def StAgree (v v' : VersionIf) (st : CellSt) : Prop :=
@@ -742,64 +323,6 @@ theorem parseBTree_frame (v v' : VersionIf) (hps : v.pageSize = v'.pageSize) (hs
 
 /-! ### `getBTreeRoot` -/
 
-/-- the class `getBTreeRoot` picks from the type byte(s) of the root page -/
-def rootClass (v : VersionIf) (number : Nat) : Py PageType := do
-  let t ← v.getData number 0 (some Generated.PAGE_TYPE_LENGTH)
-  let t ← (if t.size = 1 ∧ t.rd 0 = 0x53 then do
-      if number ≠ Generated.SQLITE_MASTER_SCHEMA_ROOT_PAGE then (.error .indexError : Py Buf)
-      else
-        let t2 ← v.getData number Generated.SQLITE_DATABASE_HEADER_LENGTH (some Generated.PAGE_TYPE_LENGTH)
-        if t2.size = 1 ∧ (t2.rd 0 = 0x05 ∨ t2.rd 0 = 0x0d) then pure t2 else .error .parseError
-    else pure t)
-  if t.size ≠ 1 then .error .indexError
-  else
-    let b := t.rd 0
-    if b = 0x05 then pure .tableInterior
-    else if b = 0x0d then pure .tableLeaf
-    else if b = 0x02 then pure .indexInterior
-    else if b = 0x0a then pure .indexLeaf
-    else .error .indexError
-
-theorem getBTreeRoot_eq (v : VersionIf) (frames number : Nat) :
-    getBTreeRoot v frames number = (rootClass v number >>= fun cls => parseBTree v frames number cls) := by
-  unfold getBTreeRoot rootClass
-  cases v.getData number 0 (some Generated.PAGE_TYPE_LENGTH) with
-  | error e => rfl
-  | ok t0 =>
-    simp only [ok_bind]
-    generalize (if t0.size = 1 ∧ t0.rd 0 = 0x53 then
-        (if number ≠ Generated.SQLITE_MASTER_SCHEMA_ROOT_PAGE then (.error .indexError : Py Buf)
-        else do
-          let t2 ← v.getData number Generated.SQLITE_DATABASE_HEADER_LENGTH (some Generated.PAGE_TYPE_LENGTH)
-          if t2.size = 1 ∧ (t2.rd 0 = 0x05 ∨ t2.rd 0 = 0x0d) then pure t2 else .error .parseError)
-      else pure t0) = X
-    cases X with
-    | error e => rfl
-    | ok t1 =>
-      rw [ok_bind, ok_bind]
-      by_cases c0 : t1.size ≠ 1
-      · rw [if_pos c0, if_pos c0]; rfl
-      rw [if_neg c0, if_neg c0]
-      by_cases c1 : t1.rd 0 = 0x05
-      · rw [if_pos c1, if_pos c1]; rfl
-      rw [if_neg c1, if_neg c1]
-      by_cases c2 : t1.rd 0 = 0x0d
-      · rw [if_pos c2, if_pos c2]; rfl
-      rw [if_neg c2, if_neg c2]
-      by_cases c3 : t1.rd 0 = 0x02
-      · rw [if_pos c3, if_pos c3]; rfl
-      rw [if_neg c3, if_neg c3]
-      by_cases c4 : t1.rd 0 = 0x0a
-      · rw [if_pos c4, if_pos c4]; rfl
-      rw [if_neg c4, if_neg c4]
-      rfl
-
-theorem getBTreeRoot_ok (v : VersionIf) (frames number : Nat) (t : List BPage)
-    (h : getBTreeRoot v frames number = .ok t) :
-    ∃ cls, rootClass v number = .ok cls ∧ parseBTree v frames number cls = .ok t := by
-  rw [getBTreeRoot_eq] at h
-  exact bind_ok h
-
 theorem rootClass_agree (v v' : VersionIf) (n : Nat) (h : Agree v v' n) : rootClass v n = rootClass v' n := by
   unfold rootClass
   rw [h.1]
@@ -810,8 +333,8 @@ theorem getBTreeRoot_frame (v v' : VersionIf) (hps : v.pageSize = v'.pageSize) (
     (ha : ∀ p ∈ visitedPages t, Agree v v' p) : getBTreeRoot v' frames n = .ok t := by
   obtain ⟨cls, hcls, hp⟩ := getBTreeRoot_ok v frames n t h
   have hn : Agree v v' n := ha n (root_mem_visited v _ n cls t hp)
-  rw [getBTreeRoot_eq, ← rootClass_agree v v' n hn, hcls, ok_bind]
-  exact parseBTree_frame v v' hps hst frames n cls t hp ha
+  exact getBTreeRoot_of_parse v' frames n cls t (by rw [← rootClass_agree v v' n hn]; exact hcls)
+    (parseBTree_frame v v' hps hst frames n cls t hp ha) (getBTreeRoot_nodup v frames n t h)
 
 /-! ### the pages reported by `treeAllPageNumbers` cover the visited pages
 
